@@ -747,6 +747,15 @@ func dedicatedSpecs() []*spec {
 				Paths: []pathsEntry{{Glob: f, Ignore: all}, {Glob: g, Ignore: []string{"no such message"}}}})
 		}
 	}
+	// patterns that match the empty string and no message (anchored at both ends), among others
+	for _, f := range wfFiles[:3] {
+		for _, e := range []string{`^$`, `^\s*$`, `\A\z`, `^(zz)?$`} {
+			out = append(out, &spec{CwdKind: "root", Spelling: "relative", Files: []string{f}, CLI: []string{e, "is not defined"}},
+				&spec{CwdKind: "root", Spelling: "relative", Files: []string{f}, CLI: []string{"label", e, "undefined"}},
+				&spec{CwdKind: "root", Spelling: "relative", Files: []string{f}, CLI: []string{e}},
+				&spec{CwdKind: "parent", Spelling: "absolute", Files: []string{f}, CfgName: "actionlint.yaml", Paths: []pathsEntry{{Glob: "**", Ignore: []string{e, "is not defined"}}}})
+		}
+	}
 	// the working directory is a sibling whose path is a string prefix of the repository's
 	for _, sp := range []string{"absolute", "noisy-abs", "link-abs", "relative", "dot", "stdin-abs"} {
 		for _, f := range wfFiles {
